@@ -308,7 +308,10 @@ def cases(tier):
             # a slow consumer on either side (the receive window fills up)
             for kind in ('put', 'get', 'ho2'):
                 for slow in ('server', 'client'):
-                    for sz in (3 * m_up + 5, 5 * 128 + 9):
+                    # (the last size needs more than 16 fragments: the
+                    # sequence numbers wrap while the window is closed)
+                    for sz in (3 * m_up + 5, 5 * 128 + 9,
+                               18 * min(m_up, 248) + 11):
                         out.append(dict(base, kind=kind, size=sz, slow=slow,
                                         agf=sz % 2 == 0))
             # acceptable length around the message size
